@@ -20,6 +20,10 @@ func emitCase(emit Emit, c editops.ECase, withModel bool) {
 	if withModel && len(c.Img) <= modelMax {
 		emit("C", "edit", args...)
 		emit("C", "editvalid", args...)
+		if c.Flat {
+			// the hypothesis of C02_valid_after_edits_flat, evaluated by the model runner
+			emit("C", "flat", args...)
+		}
 	}
 }
 
@@ -33,6 +37,14 @@ func gen(r *Rng, tier string, emit Emit) {
 		c := editops.GenCase(rr, rr.Pick(0, 0, 1), rr.Range(1, 3))
 		emitCase(emit, c, true)
 	}
+	// big volumes with files aligned through attribute bit 0x02 (128 KiB ..): built in the worker
+	nal := 40
+	if tier == "thorough" {
+		nal = 600
+	}
+	for it := 0; it < nal; it++ {
+		emit("P", "p_c02_align", N(r.Fork(uint64(6000000+it)).U64()))
+	}
 	// images of the general grammar (all section kinds, arbitrary names): model correspondence
 	for it := 0; it < ngr; it++ {
 		rr := r.Fork(uint64(5000000 + it))
@@ -43,6 +55,9 @@ func gen(r *Rng, tier string, emit Emit) {
 		args := append([]string{H(c.Img)}, editops.Tokens(c.Ops)...)
 		emit("C", "edit", args...)
 		emit("P", "p_c02", args...)
+		if c.Flat {
+			emit("C", "flat", args...)
+		}
 	}
 	// the two renderings of the reader agree, also on images that break one rule
 	for it := 0; it < nmut; it++ {
